@@ -52,7 +52,7 @@ func (C03) Runs(tier string) int {
 func (C03) Meta() core.Meta {
 	return core.Meta{
 		Level:       "fault_enumeration",
-		Rule:        "a case = (file with 1..5 stanzas, one header edit, one identity able to open the original — alone, or listed before or after an identity that matches nothing —, delivery schedule). Sweep runs enumerate every single-bit flip of the header bytes of a small file, every insertion of a byte from a 12-character alphabet (digits, sign, space, padding, CR, TAB, LF, ...) every doubled byte, every deleted byte and 5 substitutions of every byte, at every offset; sampled runs apply one byte-level edit (insert/delete/substitute incl. CR, space, '='), one line-ending/separator translation (CR before a line end, CRLF everywhere, trailing space, blank line, joined lines, tab or double space for a separator; short strings such as an extra token, padding characters, a second footer prefix or an extra stanza line inserted at the end or start of a line; sweep runs apply these to every line), one write-level fault on the recorded Header.Marshal write list (drop/duplicate/swap a write or a run of writes: lost, replayed, reordered flushes) or one structural edit by the reference writer with the MAC left stale or replaced (type/argument/body substitution, grease insertion at every position, stanza deletion/duplication/permutation, MAC random or under another file key). Non-trivial = the image differs from the original; distinct = distinct (file skeleton, edit, identity, delivery).",
+		Rule:        "a case = (file with 1..5 stanzas, one header edit, one identity able to open the original — alone, or listed before or after an identity that matches nothing —, delivery schedule). Sweep runs enumerate every single-bit flip of the header bytes of a small file, every insertion of a byte from a 12-character alphabet (digits, sign, space, padding, CR, TAB, LF, ...) every doubled byte, every deleted byte, 5 substitutions of every byte and the base64url alias of every '+' and '/', at every offset; sampled runs apply one byte-level edit (insert/delete/substitute incl. CR, space, '='), one line-ending/separator translation (CR before a line end, CRLF everywhere, trailing space, blank line, joined lines, tab or double space for a separator; short strings such as an extra token, padding characters, a second footer prefix or an extra stanza line inserted at the end or start of a line; sweep runs apply these to every line), one write-level fault on the recorded Header.Marshal write list (drop/duplicate/swap a write or a run of writes: lost, replayed, reordered flushes) or one structural edit by the reference writer with the MAC left stale or replaced (type/argument/body substitution, grease insertion at every position, stanza deletion/duplication/permutation, MAC random or under another file key). Non-trivial = the image differs from the original; distinct = distinct (file skeleton, edit, identity, delivery).",
 		Assumptions: []string{"the editor does not hold the file key (a recipient can always re-MAC; that is outside the property)", "HMAC-SHA-256/HKDF are the trusted base"},
 		Real:        []string{"filippo.io/age Decrypt", "internal/format Parse", "X25519/scrypt/ssh identities", "headerMAC"},
 		Stub:        []string{"ciphertext source", "stored header image (edited copy of what SimDisk recorded)", "crypto/rand.Reader (tape)", "byzantine editor (reference writer without the key)"},
@@ -554,6 +554,14 @@ func (e C03) exec(plan interface{}, c *core.Ctx, after *func() *core.Verdict) *c
 						if v := check(&HeaderEdit{Kind: "subst", Off: off, Byte: int(b)}); v != nil {
 							return v
 						}
+					}
+				}
+				// characters another alphabet or notation uses for the same value: base64url for standard base64,
+				// the other letter case
+				alias := map[byte][]byte{'+': []byte("-"), '/': []byte("_"), '-': []byte("+"), '_': []byte("/"), '=': []byte(".")}[F[off]]
+				for _, b := range alias {
+					if v := check(&HeaderEdit{Kind: "subst", Off: off, Byte: int(b)}); v != nil {
+						return v
 					}
 				}
 			}
